@@ -153,6 +153,7 @@ class OpenModel:
             if p.kind == 'return' and p.value[0] == 'agg':
                 res = ('Ok',) if p.value[2] == 'Ok' else err_kind(p.value[3][0])
             # pointer formation beyond the header
-            adds = [ef for ef in p.effects if ef['kind'] == 'call' and ef['callee'].endswith('::add')]
+            adds = [ef for ef in p.effects if ef['kind'] == 'call' and ef['callee'].startswith('std::ptr::') and ef['callee'].endswith(common.PTR_ADVANCE)]
+            self.fb = fb
             self.rows.append({'path': p, 'atoms': atoms, 'unknown': unknown, 'result': res, 'adds': adds})
         self.ok = True
